@@ -10,6 +10,10 @@ def run(ctx):
     vlib.absorb(ctx, rep, "control-cover")
     t = system.record(ctx, "shutdown", test="TestVerifShutdown")
     system.validate(ctx, t, ["TrLife"], "Stop and Register racing real shutdowns")
+    # the engine model: inShutdown (what Stop polls) is only set after every loop has exited, every connection was
+    # closed and the listeners are gone; the recorded shutdowns must be behaviours of that model
+    system.engine_design(ctx)
+    system.engine_traces(ctx, t, "shutdown")
     ctx.assumptions += ["TLC 1.8.0", "the interval at which Engine.Stop polls the terminal flag (package variable shutdownPollInterval) is shortened to 10 ms for the replay",
                         "calls racing a shutdown in progress may observe either side"]
     return vlib.finish(ctx, "model_checking",
